@@ -27,6 +27,11 @@ def gen_case(rng):
         if mode == "conc": sp[s]["conc"] = float(rng.randint(1, 9)) + 0.5
     globs = {"k": round(rng.uniform(0.2, 2), 3), "K": float(rng.randint(1, 5))}
     if rng.random() < 0.5: globs["g2"] = 0.7
+    # a VARIABLE global parameter driven by an assignment rule; reactions may declare a local parameter of the same id,
+    # sometimes with exactly the global's declared value (local scoping must not depend on values) -- seeded change S2_C13
+    gv = None
+    if rng.random() < 0.45:
+        gv = {"id": "gv", "value": rng.choice([0.5, 1.5, 2.0]), "formula": "1 + 0.25 * %s" % species[0]}; globs["gv"] = gv["value"]
     rxs = []
     for i in range(rng.randint(1, 3)):
         re = [(rng.choice(species), rng.randint(1, 3)) for _ in range(rng.randint(0, 2))]
@@ -38,7 +43,11 @@ def gen_case(rng):
         if rng.random() < 0.4: locs["K"] = float(rng.randint(1, 6))
         if rng.random() < 0.3: locs["kloc"] = 0.9                               # collides between reactions only
         a, b = rng.choice(species), rng.choice(species)
-        law = rng.choice(LAWS) % {"k": rng.choice(["k", "kloc"]) if "kloc" in locs else "k", "K": "K", "a": a, "b": b}
+        kname = rng.choice(["k", "kloc"]) if "kloc" in locs else "k"
+        if gv and rng.random() < 0.7:
+            kname = "gv"
+            if rng.random() < 0.7: locs["gv"] = gv["value"] if rng.random() < 0.6 else round(rng.uniform(0.2, 3), 3)
+        law = rng.choice(LAWS) % {"k": kname, "K": "K", "a": a, "b": b}
         mods = [s for s in {a, b} if s not in [x for x, _ in re] and s not in [x for x, _ in pr]]
         rxs.append({"id": "rx%d" % i, "reactants": re, "products": pr, "locals": locs, "law": law, "modifiers": mods})
     rules = []
@@ -48,6 +57,7 @@ def gen_case(rng):
         var = "R%d" % j; extra_species.append(var)
         formula = rng.choice(["2 * %s + 1", "%s * k", "%s + %s"]); formula = formula % tuple(rng.choice(species) for _ in range(formula.count("%s")))
         rules.append({"kind": kind, "var": var, "formula": formula})
+    if gv: rules.insert(rng.randint(0, len(rules)), {"kind": "assignment", "var": "gv", "formula": gv["formula"], "target": "parameter"})
     for v in extra_species: sp[v] = {"amount": 0.0, "conc": None}
     pts = [{s: float(rng.randint(0, 6)) + 0.25 * rng.randint(0, 3) for s in sp} for _ in range(3)]
     return {"species": sp, "globals": globs, "reactions": rxs, "rules": rules, "points": pts}
@@ -65,7 +75,7 @@ def _write_doc(case, path):
         if v["amount"] is not None: x.setInitialAmount(v["amount"])
         if v["conc"] is not None: x.setInitialConcentration(v["conc"])
     for p, v in case["globals"].items():
-        x = m.createParameter(); x.setId(p); x.setValue(v); x.setConstant(True)
+        x = m.createParameter(); x.setId(p); x.setValue(v); x.setConstant(not any(ru["var"] == p for ru in case["rules"]))
     for rx in case["reactions"]:
         r = m.createReaction(); r.setId(rx["id"]); r.setReversible(False)
         for s, n in rx["reactants"]:
@@ -157,7 +167,10 @@ def oracle(case, r):
             for rx in case["reactions"]:
                 nu = sum(n for y, n in rx["products"] if y == s) - sum(n for y, n in rx["reactants"] if y == s)
                 if nu == 0: continue
-                env = dict(case["globals"]); env.update(rx["locals"]); env.update(x)
+                env = dict(case["globals"])
+                for ru in case["rules"]:            # rule-driven global parameters take their rule's value at this state
+                    if ru.get("target") == "parameter": env[ru["var"]] = _eval(ru["formula"], dict(env, **x))
+                env.update(rx["locals"]); env.update(x)
                 v = _eval(rx["law"], env); want += nu * v; scale += abs(nu * v)
             for ru in case["rules"]:
                 if ru["kind"] == "rate" and ru["var"] == s:
@@ -178,7 +191,9 @@ def nontrivial(case):
 def key(case): return json.dumps(case, sort_keys=True)
 def stats(cases):
     from collections import Counter
-    return {"rule_sequences": dict(Counter("".join(ru["kind"][0] for ru in c["rules"]) for c in cases)), "colliding_locals": sum(1 for c in cases for rx in c["reactions"] if "k" in rx["locals"])}
+    return {"rule_sequences": dict(Counter("".join(ru["kind"][0] for ru in c["rules"]) for c in cases)), "colliding_locals": sum(1 for c in cases for rx in c["reactions"] if "k" in rx["locals"]),
+            "locals_shadowing_a_rule_driven_global": sum(1 for c in cases for rx in c["reactions"] if "gv" in rx["locals"]),
+            "of_which_with_the_globals_declared_value": sum(1 for c in cases for rx in c["reactions"] if "gv" in rx["locals"] and rx["locals"]["gv"] == c["globals"].get("gv"))}
 def shrink(case, fails):
     from harness.shrink import shrink_list
     rules = shrink_list(case["rules"], lambda cands: fails([dict(case, rules=c) for c in cands]), min_len=0)
